@@ -70,7 +70,7 @@ def run(ctx):
                           detail="on the UBSan build `%s` with %s gives %s; 32 bit Promela arithmetic: %s" % (ex, st, got, want))
             if len(ctx.violations) >= 3: break
     try:
-        ctx.build_lean()
+        ctx.build_lean(LEAN_FILES)
     except BrokenTie:
         if ctx.violations: return
         raise
